@@ -1,4 +1,5 @@
 import MsqProofs.Lemmas.ParseWNSkel
+import MsqProofs.Lemmas.ParseWNCov
 import MsqProofs.Lemmas.ParseMono
 import MsqModel.Parse.Entry
 import MsqModel.Driver.ShowVal
@@ -28,9 +29,13 @@ ParseWN0.lean (DEVIATION 1–5); `C02.binary_bang_witness` / `reserved_word_colu
   uniqueness for the operator layers — once it is fixed which token runs are the operands (level 9 resp. elements), the documented
   levels leave exactly one tree (`OPG.unique`, MsqProofs/Lemmas/OpGrammar.lean: an operator grammar with prefix and left-associative
   binary levels over opaque operands is unambiguous).
+* `C02.select_exprs_derive`, `subquery_exprs_derive`, `window_items_derive`, `where_clause_derives` … : the opaque leaves opened — every
+  expression at a clause position of a parsed SELECT (recursively through FROM sub-queries, WITH tables, set operations) is derived
+  by `Derives` from a contiguous run of tokens inside the cursor (`WNG.Cov`; MsqProofs/Lemmas/ParseWNCov*.lean, 42 functions).
 What is NOT here: uniqueness of `Derives` as a whole (see `derives_not_unique_witness`: WHICH tokens are elements is not determined
-where an operator sign is read as a column name), the keyword-predicate level in the skeletons, the SELECT grammar (`SubQ`, `WinSpec`
-are opaque).
+where an operator sign is read as a column name), the keyword-predicate level in the skeletons, a SELECT GRAMMAR (which clause a token run belongs to is C03's
+T-parse, not stated here), the statement level (UPDATE SET values, INSERT VALUES rows, partition specs, column defaults: each is a
+call of `pOr` / `pCompute`, to which `parse_derives` / `parse_derives_compute` apply, but the accounting is not formalised).
 -/
 set_option linter.unusedVariables false
 open Lex PM Ast WNG
@@ -199,6 +204,33 @@ theorem parse_unique_over_operands (d : Gen.D) (f : Nat) (ts : List Tok) (e : Ex
   obtain ⟨items, hs⟩ := skelL_exists hd
   exact ⟨u, items, hu, hs, fun us e' h' => (skelL_unique h' hs).1⟩
 
+/-! ### every expression CONTAINED in a parsed SELECT (the opaque leaves of `Derives`, opened)
+
+`WNG.Cov d T e`: `e` is derived by `Derives`, at some level, from a CONTIGUOUS run of tokens of `T` or of the content of a bracket
+group inside `T` (any depth: `WNG.Sub`).  `WNG.exprsQ q`: the expressions at the clause positions of `q` — select items, ON
+conditions / USING calls, LATERAL VIEW calls, WHERE, GROUP BY columns and grouping sets, HAVING, ORDER / SORT / DISTRIBUTE /
+CLUSTER BY items — recursively through sub-queries in FROM, WITH tables and the branches of set operations. -/
+
+/-- **C02 at every expression position of a SELECT statement** (`_parse_select_statement`, any dialect / fuel / tokens) -/
+theorem select_exprs_derive (d : Gen.D) (f : Nat) (ts : List Tok) (q : Query) (rest : List Tok)
+    (h : pSelectStmt d f none ts = .ok (q, rest)) : ∀ e ∈ exprsQ q, Cov d ts e :=
+  (cv_all d f).pSelectStmt ts none ts q rest .refl (by simpa [exprsOW] using CovL.nil) h
+/-- a sub-query element / `IN (SELECT …)` / `EXISTS (SELECT …)` (the leaf `SubQ` of `Derives`): the same for its clauses -/
+theorem subquery_exprs_derive (d : Gen.D) (g : Tok) (q : Query) (h : SubQ d g q) : ∀ e ∈ exprsQ q, Cov d g.children e :=
+  subQ_covered h
+/-- the specification of a window (the leaf `WinSpec`): its PARTITION BY and ORDER BY items -/
+theorem window_items_derive (d : Gen.D) (fn w : Expr) (cs : List Tok) (h : WinSpec d fn cs w) :
+    ∃ part ord rows, w = .window fn part ord rows ∧ ∀ e ∈ part ++ ord.map oiE, Cov d cs e := winSpec_covered h
+/-- clause entry points: `parse_where_clause` / HAVING, `parse_group_by_clause`, `parse_order_by_clause`, `parse_join_clause` -/
+theorem where_clause_derives (d : Gen.D) (f : Nat) (kw : String) (ts : List Tok) (v : Option Expr) (rest : List Tok)
+    (h : pOptOr d f kw ts = .ok (v, rest)) : ∀ e ∈ v.toList, Cov d ts e := (cv_all d f).pOptOr ts kw ts v rest .refl h
+theorem group_by_clause_derives (d : Gen.D) (f : Nat) (ts : List Tok) (v : Option GroupBy) (rest : List Tok)
+    (h : pGroupBy d f ts = .ok (v, rest)) : ∀ e ∈ ogbE v, Cov d ts e := (cv_all d f).pGroupBy ts ts v rest .refl h
+theorem order_by_clause_derives (d : Gen.D) (f : Nat) (ts : List Tok) (v : Option (List OrderItem)) (rest : List Tok)
+    (h : pOrderByOpt d f ts = .ok (v, rest)) : ∀ e ∈ oiEs v, Cov d ts e := (cv_all d f).pOrderByOpt ts ts v rest .refl h
+theorem join_clause_derives (d : Gen.D) (f : Nat) (ts : List Tok) (v : Join) (rest : List Tok)
+    (h : pJoin d f ts = .ok (v, rest)) : ∀ e ∈ exprsJ v, Cov d ts e := (cv_all d f).pJoin ts ts v rest .refl h
+
 /-! ### at text level: the public entry point, lexer included -/
 theorem W02.entry_or : entries.find? (·.1 == "logical_or_level_expression") = some ("logical_or_level_expression", exprEntry pOr) := by
   rfl
@@ -246,6 +278,13 @@ example : ∃ used, [ta, tor, tb] = used ++ [] ∧ Derives .MYSQL 14 used (.or_ 
   parse_derives .MYSQL 30 [ta, tor, tb] _ [] (by rfl)
 example : Derives .MYSQL 14 [ta, tor, tb] (.or_ ca cb) :=
   Derives.or_ (l := [ta]) (da.up (by omega)) (by rfl) (db.up (by omega))
+
+/-- non-vacuity of `select_exprs_derive` (kernel-checked run of the model on the tokens of `SELECT a OR b WHERE a`) -/
+def W02.tsel : Tok := Tok.single "SELECT".toList 0
+def W02.twh : Tok := Tok.single "WHERE".toList 0
+def W02.q0 : Query := .single (.mk (some []) false [(.or_ ca cb, none)] none [] [] (some ca) none none none none none none none)
+example : Cov .MYSQL [W02.tsel, ta, tor, tb, W02.twh, ta] (.or_ ca cb) :=
+  select_exprs_derive .MYSQL 40 _ W02.q0 [] (by rfl) _ (by simp [W02.q0, exprsQ, exprsS])
 
 /-- **`Derives` is not functional** (why there is no `derives_unique` for the relation as it stands): the code accepts ANY token as
 a column name (DEVIATION 2), so `a - - - b` also derives `(a - "-") - b`, with the second `-` read as a column; the parser
